@@ -13,6 +13,27 @@ def showDecErr : DecErr → String
 
 def showNats (xs : List Nat) : String := toHex xs
 
+/-- runs text: `r<count>:<value>` or `p<hex of values, 8 per group>`, comma separated -/
+def parseRun (s : String) : Option Run :=
+  match s.toList with
+  | 'r' :: rest =>
+    match (String.ofList rest).splitOn ":" with
+    | [c, v] => match c.toNat?, v.toNat? with
+      | some c, some v => some (.rle c v)
+      | _, _ => none
+    | _ => none
+  | 'p' :: rest =>
+    let vals := unhexList rest
+    let rec groups (fuel : Nat) (xs : List Nat) : List (List Nat) :=
+      match fuel with
+      | 0 => []
+      | fuel+1 => if xs = [] then [] else xs.take 8 :: groups fuel (xs.drop 8)
+    some (.packed (groups vals.length vals))
+  | _ => none
+
+def parseRuns (s : String) : Option (List Run) :=
+  if s = "-" then some [] else (s.splitOn ",").mapM parseRun
+
 def step (line : String) : String :=
   match (line.trimAscii.toString.splitOn " ") with
   | ["rle-enc", w, xs] =>
@@ -33,6 +54,10 @@ def step (line : String) : String :=
       | some (vs, n) => s!"ok {toHex vs} {n}"
       | none => "err"
     | none => "bad-op"
+  | ["rle-ser", w, rs] =>
+    match w.toNat?, parseRuns rs with
+    | some w, some runs => let b := serRuns w runs; toHex (le32 b.length ++ b) ++ " " ++ toHex (runsVals runs)
+    | _, _ => "bad-op"
   | ["pack", w, g] =>
     match w.toNat? with
     | some w => toHex (pack w (unhex g))
